@@ -9,7 +9,7 @@ C13 line-protocol driver.  One case = one admin handler + one request:
 
   side     L | R                                  local / remote endpoint (newAdminHandler's `remote`)
   addr     listen:ipclass                         listen = the configured `admin.listen` / `remote.listen`
-                                                  string (hex; printable ASCII, no braces), parsed by the
+                                                  string (hex; printable ASCII; placeholders only {env.C13_…}), expanded and parsed by the
                                                   model (Listen.lean); ipclass = netip's verdict on the
                                                   host it parses to (n|u|l|o)
   origins  ~ (null) | . (empty) | raw:ok:scheme:host;…     ok,scheme,host = url.Parse(raw) table
@@ -63,7 +63,29 @@ def parseAddr (s : String) : Option (Bytes × IpClass) :=
 def defaultLocalListen : Bytes := str "unix/c13-default.sock"
 def defaultRemoteListen : Bytes := str ":2021"
 
-def listenByteOK (b : UInt8) : Bool := 32 ≤ b && b ≤ 126 && b != 123 && b != 125
+def listenByteOK (b : UInt8) : Bool := 32 ≤ b && b ≤ 126
+
+/-- the environment the harness sets for placeholders in `listen` (same table in c13.go); every
+    other `env.` name is unset, i.e. expands to the empty string -/
+def listenEnvTable : List (Bytes × Bytes) :=
+  [(str "C13_HOST", str "localhost"), (str "C13_IP", str "192.168.1.5"), (str "C13_PORT", str "2019"),
+   (str "C13_WILD", str "0.0.0.0"), (str "C13_EMPTY", []), (str "C13_BRACE", str "{env.C13_HOST}")]
+
+/-- the global placeholder providers as far as the protocol lets them be reached: `env.NAME`
+    (always known, empty when unset); everything else is unknown -/
+def listenEnv : C18.Env := fun key =>
+  if hasPrefix key (str "env.") then
+    some (match listenEnvTable.find? (·.1 == key.drop 4) with | some kv => kv.2 | none => [])
+  else none
+
+/-- placeholders of the other global providers (host name, working directory, clock, files) are
+    outside the protocol, and `env.` names are confined to the harness's own variables -/
+def listenPlaceholdersInDomain (s : Bytes) : Bool :=
+  !containsSub s (str "system.") && !containsSub s (str "time.") && !containsSub s (str "file.") && envNamesOK s
+where
+  envNamesOK : Bytes → Bool
+    | [] => true
+    | c :: cs => (!hasPrefix (c :: cs) (str "env.") || hasPrefix (c :: cs) (str "env.C13_")) && envNamesOK cs
 
 def parseUrlT (ok sc h : String) : Option Url := do
   pure ⟨← parseBool ok, ← Hex.decode sc, ← Hex.decode h⟩
@@ -178,7 +200,7 @@ def handleReq (load : Bool) : List String → String
             parseHeaderUrl origin, parseHeaderUrl referer, parseTls tls with
       | some m, some h, some p, some up, some (o, ou), some (rf, ru), some tls =>
         if side != "L" && side != "R" then "bad-op"
-        else if !listen.all listenByteOK then "bad-op"
+        else if !listen.all listenByteOK || !listenPlaceholdersInDomain listen then "bad-op"
         else if !up.all (fun v => v.all (· < 128)) then "bad-op"   -- strings.ToLower is only modelled on ASCII
         else if !(pats.all validPat) || !distinct pats || !distinct (idx.map (·.1)) then "bad-op"
         else if !idx.all (fun e => e.2.all safeByte) then "bad-op"   -- rewritten paths stay in the mux's unescaped alphabet
@@ -187,7 +209,7 @@ def handleReq (load : Bool) : List String → String
         else match idChain idx maxHops p with
           | none => "too-many-redirects"
           | some _ =>
-            match parseAdminListenAddr listen (if side == "R" then defaultRemoteListen else defaultLocalListen) with
+            match parseAdminListenAddrP listenEnv listen (if side == "R" then defaultRemoteListen else defaultLocalListen) with
               | .err => "listen-error"
               | .ok network ahost port =>
                 if !unixPermInDomain network ahost then "bad-op"
